@@ -18,7 +18,8 @@ Definition run_case (engine : bytes) (v : val) : val :=
         | None => VL [finding K_BAD engine (VL []) (VL [])]
         | Some i =>
             VL (finding K_TAG (tag_serve i) (VL []) (VL [])
-                :: cmp_obs (forallb fused_stream (i_streams i)) (model_obs i obs) obs (model_polls_ext i obs) ++ cmp_text i obs
+                :: (let fs := (let mx := model_ext i obs in cmp_obs (forallb fused_stream (i_streams i)) (model_obs i obs) obs (fst mx) (snd mx)) ++ cmp_text i obs in
+                    if conds_malformed i then map as_malformed_drift fs else fs)
                 ++ match dec_sobs obs with
                    | None =>          (* serve itself panicked (or the observation is malformed) *)
                        match obs with
